@@ -1,5 +1,6 @@
 import SyneTune.Base.Wire
 import SyneTune.Model.Tuner
+import SyneTune.Lemmas.TunerWitnessData
 /-
 Driver for stream `loop` (C01, C12, C13-loop, C17, C20-loop): run with
 `lake env lean --run SyneTune/Drivers/Loop.lean`.
@@ -244,8 +245,51 @@ def modeLookup (j : Json) : Except String Json := do
   | .error .assertion => return jErr "assertion"
   | .error .indexError => return jErr "index-error"
 
+/-- an answer on the wire (inverse of `ansOf`; used to hand out the witnesses) -/
+def jAns : Ans → Json
+  | .ret => jObj [("ret", Json.bool true)]
+  | .raise => jObj [("raise", jS "witness")]
+  | .poll sd res =>
+    jObj [("status", jArr (sd.map fun kv => jArr [jNat kv.1, jS kv.2.toString])),
+          ("results", jArr (res.map fun r => jArr [jNat r.tid, jNat r.rid,
+             jArr (r.m.map fun kv => jArr [jNat kv.1, match kv.2 with | .num x => jX x | .other => jObj [("s", jS "?")]])]))]
+  | .decision d none => jObj [("d", jS d.toString)]
+  | .decision d (some m) =>
+    jObj [("d", jS d.toString),
+          ("m", jArr (m.map fun kv => jArr [jNat kv.1, match kv.2 with | .num x => jX x | .other => jObj [("s", jS "?")]]))]
+  | .ids l => jObj [("ids", jArr (l.map jNat))]
+  | .sugg .none => jObj [("kind", jS "none")]
+  | .sugg (.start c k) => jObj [("kind", jS "start"), ("cfg", jNat c), ("ckpt", jOptN k)]
+  | .sugg (.resume i c) => jObj [("kind", jS "resume"), ("id", jNat i), ("cfg", jOptN c)]
+  | .clock t => jObj [("t", jRat t)]
+  | .status st => jObj [("st", jS st.toString)]
+
+/-- op `witness`: the configuration and the dialogue (calls and answers at the calling control
+points, in order) of a named witness of `Lemmas/TunerWitnessData.lean` -/
+def witnessOp (j : Json) : Except String Json := do
+  let name ← getStr j "name"
+  match Witness.byName name with
+  | none => return jErr s!"unknown witness {name}"
+  | some (c, as) =>
+    let rec go (s : LState) (as : List Ans) (acc : List Json) : List Json :=
+      match as with
+      | [] => acc.reverse
+      | a :: rest =>
+        let acc' := if s.pc.silent || s.pc == .done then acc
+                    else jObj [("call", jCall (pending s)), ("ans", jAns a)] :: acc
+        go (step s a) rest acc'
+    let dlg := go (init c) as []
+    let fin := run (init c) as
+    return jOut (jObj [
+      ("n_workers", jNat c.nWorkers), ("max_failures", jNat c.maxFailures), ("async", Json.bool c.async),
+      ("wait", Json.bool c.wait), ("swd", Json.bool c.swd), ("delete_checkpoints", Json.bool c.deleteCkpt),
+      ("ckpt_cb", Json.bool c.ckptCb), ("store", Json.bool c.store),
+      ("max_num_trials_started", jOptN c.crit.maxStarted),
+      ("dialogue", jArr dlg), ("ends", jCall (pending fin))])
+
 def loopStep (d : DState) (j : Json) : Except String (DState × Json) := do
   if getStrD j "op" "ans" == "mode_lookup" then return (d, ← modeLookup j)
+  if getStrD j "op" "ans" == "witness" then return (d, ← witnessOp j)
   let a ← ansOf (← j.getObjVal? "ans")
   if !expects d.s.pc a then throw s!"protocol: answer does not fit control point {repr d.s.pc}"
   let s' := settle (step d.s a)
